@@ -109,7 +109,8 @@ func runC18(c *Ctx) {
 		return h
 	}
 	mkVal := func(k int) []byte {
-		v := []uint64{0, 1, 2, 255, 256, 1 << 32, math.MaxInt64}[k%7]
+		// amounts are signed 64-bit numbers: -1 (the placeholder of SIGHASH_SINGLE signing copies) and the minimum sort first
+		v := []uint64{0, 1, 2, 255, 256, 1 << 32, math.MaxInt64, math.MaxUint64, 1 << 63}[k%9]
 		var b [8]byte
 		binary.BigEndian.PutUint64(b[:], v)
 		return b[:]
@@ -142,7 +143,7 @@ func runC18(c *Ctx) {
 			hk := r.Intn(18)
 			inEl = append(inEl, map[string]interface{}{"hash": ints(mkHash(hk)), "idx": w32([]uint32{0, 1, 2, 1 << 31, math.MaxUint32}[r.Intn(5)]),
 				"script": ints(scripts[r.Intn(len(scripts))]), "seq": w32(r.Uint32())})
-			oe := map[string]interface{}{"value": ints(mkVal(r.Intn(7))), "script": ints(scripts[r.Intn(len(scripts))])}
+			oe := map[string]interface{}{"value": ints(mkVal(r.Intn(9))), "script": ints(scripts[r.Intn(len(scripts))])}
 			if k%2 == 1 {
 				oe["tok"] = ints([]byte{byte(k), 7})
 			}
@@ -231,7 +232,7 @@ func runC18(c *Ctx) {
 			if r.Intn(3) == 0 {
 				sc = randBytes(r, r.Intn(30))
 			}
-			om := map[string]interface{}{"value": ints(mkVal(r.Intn(7))), "script": ints(sc)}
+			om := map[string]interface{}{"value": ints(mkVal(r.Intn(9))), "script": ints(sc)}
 			if r.Intn(4) == 0 {
 				om["tok"] = ints(randBytes(r, 1+r.Intn(6)))
 			}
